@@ -53,9 +53,10 @@ TRUSTED = [
     "validated only on SQLite by executing upgrade then downgrade and calling compare_metadata",
 ]
 RULE = (
-    "A: generated leaf ops of every reversible class (from_* and direct constructors, with/without stored _reverse, 12% carrying an "
+    "A: generated leaf ops of every reversible class (from_* and direct constructors, with/without stored _reverse, tables with "
+    "table-level options - sqlite_with_rowid/sqlite_strict/mysql_engine/postgresql_partition_by/comment/prefixes/info, truthy and falsy -, 12% carrying an "
     "attribute reverse() loses or used to lose (rename, IF [NOT] EXISTS, drop-column kw, deferrable=False)) and op trees with nested ModifyTableOps; B: real autogenerate output on SQLite for "
-    "generated schema pairs, executed upgrade+downgrade in batch mode. Non-trivial: a reversible op / a non-empty upgrade; distinct "
+    "generated schema pairs, executed upgrade+downgrade in batch mode (40% of tables WITHOUT ROWID; reflected table options compared before/after). Non-trivial: a reversible op / a non-empty upgrade; distinct "
     "by canonical op"
 )
 ASSUMPTIONS = [
